@@ -10,6 +10,7 @@
 pub mod ctx;
 pub mod gen;
 pub mod progs;
+pub mod codec;
 
 mod props {
     include!(concat!(env!("OUT_DIR"), "/props.rs"));
